@@ -99,6 +99,7 @@ def plan(tier):
     for i in range(n):
         jobs.append({"part": "direct", "examples": 500 if tier == "quick" else 4000})
         jobs.append({"part": "scenario", "op": ["read", "write"][i % 2], "examples": 60 if tier == "quick" else 700})
+        jobs.append({"part": "lifecycle", "examples": 8 if tier == "quick" else 60})
     return jobs
 
 
@@ -106,6 +107,28 @@ def run_job(ctx, job):
     if job["part"] == "direct":
         hyp_search(ctx, "direct", direct_cases(), lambda c: (check_direct(c), c["kind"] in ("rr", "unit") and len(c["payload"]) > 0, ["direct", "direct." + c["kind"]]),
                    job["examples"])
+        return
+
+    if job["part"] == "lifecycle":
+        from . import c10
+
+        def check_life(case):
+            """frames of lifecycle histories (C10 generator), fault-free and with a fault at every transport operation"""
+            discs = []
+            d0, info = c10.run_history(case, None)
+            runs = [(None, info)]
+            for k in range(0, info["ops"]):
+                v = (k + case.get("rot", 0)) % 3
+                fault = {"at": k, "send": ["pipe", "zero", "timeout"][v], "recv": ["timeout", "reset", "close"][v]}
+                runs.append((fault, c10.run_history(case, fault)[1]))
+            for fault, inf in runs:
+                ctx.bulk(inf["frames"], [], {"scenario-frames": inf["frames"], "lifecycle-runs": 1})
+                for code, detail in inf["audits_c11"]:
+                    discs.append(Disc("lifecycle." + code, f"{detail} [fault {fault}]"))
+            ctx.evaluations -= 1
+            return discs, True, ["lifecycle"]
+
+        hyp_search(ctx, "lifecycle", c10.cases(), check_life, job["examples"], sample_of=c10.sample_of)
         return
 
     def check_case(case):
@@ -120,5 +143,17 @@ def run_job(ctx, job):
 def replay(ctx, kind, case):
     if kind == "direct":
         return check_direct(case)
+    if kind == "lifecycle":
+        from . import c10
+        discs = []
+        d0, info = c10.run_history(case, None)
+        runs = [(None, info)]
+        for k in range(0, info["ops"]):
+            v = (k + case.get("rot", 0)) % 3
+            fault = {"at": k, "send": ["pipe", "zero", "timeout"][v], "recv": ["timeout", "reset", "close"][v]}
+            runs.append((fault, c10.run_history(case, fault)[1]))
+        for fault, inf in runs:
+            discs += [Disc("lifecycle." + code, f"{detail} [fault {fault}]") for code, detail in inf["audits_c11"]]
+        return discs
     run = S.run_case(case, want_readback=False)
     return run.of("C11")
